@@ -77,6 +77,14 @@ def panic_clause(ctx, F, entries, rule='R-PANIC', stop=None, only_bodies=None, w
                 cands = [e_ for k_, e_ in table.items() if e_.get('requires') and relax_key(k_) == rk]
                 if len(cands) == 1:
                     ent = cands[0]
+                if ent is None:
+                    # the code of a routine moved into another function (extracted elsewhere and spliced into a different
+                    # caller): the same site under another function name.  Again only for entries whose argument is re-checked
+                    # structurally, and only a unique match on the whole site description
+                    tail = rk.split('|', 1)[1] if '|' in rk else None
+                    cands = [e_ for k_, e_ in table.items() if e_.get('requires') and '|' in k_ and relax_key(k_).split('|', 1)[1] == tail]
+                    if tail and len(cands) == 1:
+                        ent = cands[0]
             if ent is None:
                 rep.violation(rule, s.key,
                               'unreviewed may-panic site on a path that must not panic (%s); kind=%s operands=%s; dominating conditions=%s'
